@@ -20,3 +20,6 @@ int fx_bad_elem_index(ec_point_p p, size_t n) { ec_point_t tbl[8]; size_t i; BN_
  for (i = 1; i < n; i ++) { BN_RET_ON_ERR(ec_point_init(&tbl[1], 64)); BN_RET_ON_ERR(ec_point_assign(&tbl[i], &tbl[(i - 1)])); } return (0); }
 int fx_ok_loop_range(ec_point_p p) { ec_point_t tbl[4]; size_t i; for (i = 0; i < 4; i ++) { BN_RET_ON_ERR(ec_point_init(&tbl[i], 64)); }
  BN_RET_ON_ERR(ec_point_assign(&tbl[3], p)); BN_RET_ON_ERR(ec_point_assign(&tbl[0], p)); return (0); }
+
+int fx_jac_ok(ec_point_proj_p a, ec_point_p b) { if (0 != bn_is_zero(&a->y)) return (1); return (bn_is_equal(&b->x, &b->y)); }
+int fx_jac_bad(ec_point_proj_p a, ec_point_p b) { return (bn_is_equal(&a->y, &b->y)); }
